@@ -803,3 +803,135 @@ def userinfo_cycle(rng):
     rng.shuffle(insts)
     args = {"schema": root, "docs": docs, "base": base, "loader": True, "insts": insts[:6], "maxLoads": 8 * k + 16}
     return args, {"universe": True, "userinfo": True, "ndocs": k, "shape": shape}
+
+
+def _marked_insts(rng, targets, marks):
+    """instances {p<i>: mark} for every reference i and a few marks; expectation: valid iff the mark is that of the designated target"""
+    insts, expect = [], []
+    for i, tm in enumerate(targets):
+        for m in set(rng.sample(marks, min(len(marks), 2)) + ([tm] if tm else [])):
+            insts.append(Obj([("p%d" % i, m)]))
+            expect.append(tm is not None and m == tm)
+    return insts, expect
+
+
+def query_universe(rng, draft="2020"):
+    """References that consist of a QUERY (and perhaps a fragment) and no path: `?v=2`, `?v=2#/$defs/t`, `?rev=7#A`. RFC 3986 5.2.2: the
+    base's path is kept and its query REPLACED, which names another resource than the referring one — here a resource embedded in the root
+    (`$id: ?v=2`, relative or spelled out), a Loader document (`<base path>?rev=7`), or nothing (the Loader is asked and has no such
+    document / there is no Loader: Resolve must fail). Every resource has a definition `t` and an anchor `A` of its own, so a reference
+    that lands in the wrong resource shows. Beside them the neighbours: same-document `#A`, `#/$defs/t`, `<file>?v=2#A`, the base's own
+    query. Returns (args, meta) with expectations by construction (urljoin)."""
+    dk = "$defs" if draft == "2020" else "definitions"
+    base = rng.choice([SITE + "/d/root.json", SITE + "/d/root.json?v=1", "https://h.test/p/q/root.json", SITE + "/d/sub/r.json?rev=1&x=y"])
+    file_ = urlsplit(base).path.rsplit("/", 1)[1]
+
+    def res(m, mroot):
+        t = Obj([("const", m)])
+        t.kvs.insert(0, ("$anchor", "A") if draft == "2020" else ("$id", "#A"))
+        o = Obj([(dk, Obj([("t", t)]))])
+        if mroot:
+            o.set("const", mroot)
+        return o
+    root = res("M0", None)
+    if draft == "7":
+        root.kvs.insert(0, ("$schema", "http://json-schema.org/draft-07/schema#"))
+    q_emb, q_doc = rng.sample(["?v=2", "?rev=7", "?a=b&c=d", "?x", "?v=1.0", "?q=%2F"], 2)
+    where = {}            # query -> (mark of t, mark of the resource root)
+    docs = []
+    if rng.random() < 0.9:
+        e = res("M1", "ME")
+        e.kvs.insert(0, ("$id", q_emb if rng.random() < 0.6 else urljoin(base, q_emb)))
+        root.get(dk).set(rng.choice(["emb", "0e", "zz"]), e)
+        where[q_emb] = ("M1", "ME")
+    if rng.random() < 0.9:
+        d = res("M2", "ML")
+        if draft == "7" and rng.random() < 0.5:
+            d.kvs.insert(0, ("$schema", "http://json-schema.org/draft-07/schema#"))
+        docs.append([urljoin(base, q_doc), d])
+        where[q_doc] = ("M2", "ML")
+    loader = bool(docs) or rng.random() < 0.5
+    props, targets = Obj(), []
+    dangling = False
+    for i in range(rng.randint(2, 5)):
+        r = rng.random()
+        if r < 0.2:
+            ref, tm = rng.choice([("#A", "M0"), ("#/" + dk + "/t", "M0")])
+            if urlsplit(base).query and rng.random() < 0.5:
+                ref = "?" + urlsplit(base).query + ref            # the base's own query: the same resource
+        else:
+            q = rng.choice([q_emb] * 4 + [q_doc] * 4 + ["?nosuch=1", "?v=3"]) if rng.random() < 0.7 else rng.choice(list(where) or ["?v=3"])
+            kind = rng.choice(["ptr", "ptr", "anchor", "root"])
+            frag = {"ptr": "#/" + dk + "/t", "anchor": "#A", "root": rng.choice(["", "#"])}[kind]
+            pre = rng.choice(["", "", "", file_, "./" + file_])
+            ref = pre + q + frag
+            if q in where:
+                tm = where[q][1] if kind == "root" else where[q][0]
+            else:
+                tm = None
+                dangling = True
+        props.kvs.append(("p%d" % i, Obj([("$ref" if draft == "7" or rng.random() < 0.9 else "$dynamicRef", ref)])))
+        targets.append(tm)
+    root.set("properties", props)
+    insts, expect = _marked_insts(rng, targets, ["M0", "M1", "M2", "ME", "ML", "zz"])
+    args = {"schema": root, "docs": docs, "base": base, "loader": loader, "insts": insts}
+    meta = {"kind": "universe", "nrefs": len(targets), "query_refs": True, "dangling": dangling,
+            "expect": None if dangling else expect, "expect_outcome": "resolve-error" if dangling else "resolved"}
+    return args, meta
+
+
+def d7_path_fragment_id(rng):
+    """draft-07 `$id`s that have BOTH a non-fragment part and a plain-name fragment (`item.json#node`, `http://x.test/y#node`). Such an
+    `$id` defines no plain name `node` in the enclosing resource (the package registers the whole text as the name; the model follows it):
+    `#node` there designates the subschema whose `$id` is exactly `#node` — declared before or after the other in document / key order —
+    or nothing (Resolve must fail); `item.json#node` is a reference to another document (Loader). The carrying subschema stays
+    addressable by pointer. The document is the draft-07 root, or a `$schema`-less Loader document that inherits draft-07 from it."""
+    d7 = rng.choice(["http://json-schema.org/draft-07/schema#", "https://json-schema.org/draft-07/schema#"])
+    base = rng.choice([SITE + "/d/root.json", "https://h.test/p/q/root.json", SITE + "/d/sub/deep/r.json"])
+    name = rng.choice(["node", "n1", "A", "item"])
+    path = rng.choice(["item.json", "sub/i.json", "../k.json", SITE + "/y", "/abs/x4.json", "item.json?v=2"])
+    in_lib = rng.random() < 0.3
+    doc_uri = urljoin(base, "lib.json") if in_lib else base
+    k_mixed, k_plain, k_other = rng.sample(["a", "m", "z", "0", "node", "B"], 3)
+    entries = [(k_mixed, Obj([("$id", path + "#" + name), ("const", "M1")]))]
+    have_plain = rng.random() < 0.5
+    if have_plain:
+        entries.append((k_plain, Obj([("$id", "#" + name), ("const", "M2")])))
+    entries.append((k_other, Obj([("$id", "#other"), ("const", "M3")])))
+    rng.shuffle(entries)
+    body = Obj([("definitions", Obj(entries))])
+    docs = []
+    remote_uri = urljoin(doc_uri, path)
+    have_remote = rng.random() < 0.6
+    if have_remote:
+        rd = Obj([("definitions", Obj([("k", Obj([("$id", "#" + name), ("const", "M4")]))]))])
+        if rng.random() < 0.5:
+            rd.kvs.insert(0, ("$schema", d7))
+        docs.append([remote_uri, rd])
+    props, targets, dangling = Obj(), [], False
+    forms = rng.sample(["plain", "plain", "abs", "ptr", "remote", "other"], rng.randint(2, 4))
+    for i, f in enumerate(forms):
+        if f in ("plain", "abs"):
+            ref = ("#" if f == "plain" else doc_uri + "#") + name
+            tm = "M2" if have_plain else None
+        elif f == "ptr":
+            ref, tm = "#/definitions/" + k_mixed, "M1"
+        elif f == "other":
+            ref, tm = "#other", "M3"
+        else:
+            ref, tm = path + "#" + name, ("M4" if have_remote else None)
+        dangling = dangling or tm is None
+        props.kvs.append(("p%d" % i, Obj([("$ref", ref)])))
+        targets.append(tm)
+    body.set("properties", props)
+    if in_lib:
+        root = Obj([("$schema", d7), ("allOf", [Obj([("$ref", rng.choice(["lib.json", doc_uri]))])])])
+        docs.append([doc_uri, body])
+    else:
+        body.kvs.insert(0, ("$schema", d7))
+        root = body
+    insts, expect = _marked_insts(rng, targets, ["M1", "M2", "M3", "M4", "zz"])
+    args = {"schema": root, "docs": docs, "base": base, "loader": True if docs else rng.random() < 0.5, "insts": insts}
+    meta = {"kind": "universe", "nrefs": len(targets), "d7_mixed_id": True, "dangling": dangling,
+            "expect": None if dangling else expect, "expect_outcome": "resolve-error" if dangling else "resolved"}
+    return args, meta
